@@ -92,6 +92,10 @@ C06_Applies(o) ==
   /\ ~(o.sig \/ o.preSig) /\ o.failed = {} /\ ~o.aborted
 C06_Eager(n, E, order, started, ended) ==
   \A f \in (1..n) \ started : \E p \in DirPreds(E, order, f) : p \notin ended
+(* the same for stream*(): the stream is idle (Pending, no wake-up of the polling task) although a function whose  *)
+(* predecessors' FnRefs were all dropped has not been yielded -- C05's stall predicate, read as eagerness        *)
+C06_StreamApplies(o) == IsStream(o) /\ ~(o.sig \/ o.preSig) /\ ~o.aborted
+C06_StreamEager(n, E, order, yielded, dropped, woken) == C05_NoStall(n, E, order, yielded, dropped, woken)
 (* every edge the user did not add is a Data edge between conflicting functions *)
 C06_DataOnlyForConflict(built, ue, reads, writes) ==
   LET UP == PairsOfSeq(ue) IN
@@ -107,6 +111,9 @@ C07_HandOut(C, order, f, failed) == \A g \in failed : ~DirBefore(C, order, g, f)
 C07_ErrorsExact(errors, failed) ==
   /\ Range(errors) = failed
   /\ Len(errors) = Cardinality(failed)
+(* "the call returns Err/Break carrying ...": a call with failed functions that is pending with nothing in flight  *)
+(* and no wake-up scheduled will never report them (the C04 dead end, reported under C07 when a function failed)  *)
+C07_Returns(idle, returned, inflight) == C04_NoDeadlock(idle, returned, inflight)
 (* try_fold: the first error is returned and nothing is invoked after it *)
 C07_FoldNoneAfter(failed) == failed = {}
 C07_FoldResult(isErr, err, failedSeq) ==
@@ -148,6 +155,9 @@ C09_Control(kind, state, failed) ==
 C10_HandOut(o, inflightAfter) ==
   /\ IsFold(o) => Cardinality(inflightAfter) <= 1
   /\ (IsConcurrent(o) /\ o.limit >= 1) => Cardinality(inflightAfter) <= o.limit
+
+(* "any limit >= 1 still lets every graph run to completion": the same dead end under a limit *)
+C10_Completes(idle, returned, inflight) == C04_NoDeadlock(idle, returned, inflight)
 
 ---------------------------------------------------------------------------
 (* C11  build(): total, faithful, orders every conflict                     *)
